@@ -15,6 +15,9 @@ for I, ob, dec in obs:
         for p in ob.pc:
             s.add(p)
         s.add(z3.Not(ob.goal))
+        if 'strU' in s.sexpr():
+            from pyvc.values import str_axioms
+            s.add(*str_axioms())
         s.set('timeout', 10000)
         print('==', ob.name, dec, s.check())
         if len(sys.argv) > 3:
